@@ -18,6 +18,7 @@ def run(repo, res, tier):
     multidict.rule_m2(repo, res)
     multidict.rule_m3(repo, res)
     multidict.rule_m4(repo, res)
+    multidict.rule_is_value(repo, res)
     # a container built from / converted to another keeps every pair: no key-by-key re-lookup (first value only)
     from .. import hookrules as _hk
     _hk.rule_reindex(repo, res)
